@@ -70,6 +70,10 @@ MenuDry == Installs({"cA", "cH"}, B, B, B, B, B) \cup CRDInstalls(B, B, B, B) \c
            \cup UpInstalls({"cA", "cR", "cH"}, B, F, B, B, B)
            \cup {[U("install", "cA") EXCEPT !.dry = TRUE, !.clientOnly = TRUE],
                  [U("install", "cH") EXCEPT !.dry = TRUE, !.clientOnly = TRUE, !.replace = TRUE]}
+\* small menu whose operation sequences are enumerated exhaustively: every dry spelling of every operation after
+\* every short real history (incl. an uninstalled last revision)
+MenuDryEnum == Installs({"cH"}, B, F, F, F, B) \cup Upgrades({"cI"}, F, F, {0, 1}, F, F, B)
+               \cup Rollbacks({0}, {0}, F, F, B) \cup Uninstalls(B, F, B)
 \* ownership family (C07)
 MenuOwn == Installs({"cA", "cB", "cL"}, B, F, F, B, F) \cup Upgrades({"cB", "cC", "cL", "cA"}, F, F, {0}, F, B, F)
            \cup Uninstalls(F, F, F) \cup Rollbacks({0}, {0}, F, F, F)
